@@ -38,7 +38,10 @@ func NewPublicIPFetcher() *PublicIPFetcher {
 
 func (p *PublicIPFetcher) GetIP(ctx context.Context) (net.IP, error) {
 	myIP, err := cache.GetWithExpiration("source_public_ip", func() ([]byte, error) {
-		ip, err := GetPublicIP(ctx, p.client, p.backoffPolicy)
+		// ExponentialBackOff keeps its state in the struct and is not safe for concurrent use:
+		// every fetch works on its own copy of the configured policy
+		backoffPolicy := *p.backoffPolicy
+		ip, err := GetPublicIP(ctx, p.client, &backoffPolicy)
 		log.Debugf("Public IP fetched: %s", ip.String())
 		if err != nil {
 			return nil, err
